@@ -13,7 +13,7 @@ import os, re, subprocess, sys
 from . import common as C, chan
 
 MODULE = "AcqVerif.Props.C03"
-DRIVERS = ["acq_conc", "acq_chan", "AcqVerif.Channel.Translated"]
+DRIVERS = ["acq_conc", "acq_chan", "AcqVerif.Channel.Refine"]
 THEOREMS = ["AcqVerif.C03.%s" % t for t in (
     "no_lost_wakeup", "notifier_wakes_all", "lock_held_only_at_wait_entry", "not_stuck_while_admissible",
     "refusal_returns_null", "space_when_drained", "woken_writer_returns", "reader_drains_in_three_reads")] + [
